@@ -4,8 +4,9 @@
 # seeded change (VERIF_REPO), so /repo itself is never modified; the worktree
 # is removed afterwards. Prints one line per check.
 set -u
+here=$(cd "$(dirname "$0")" && pwd)
 dir=$(cd "$1" && pwd); tier=$2; shift 2
-cd /verif
+cd "$here"
 wt=$(mktemp -d /tmp/seedwt.XXXXXX); rmdir "$wt"
 git -C /repo worktree add -q --detach "$wt" HEAD || exit 3
 trap 'git -C /repo worktree remove --force "$wt"; rm -rf "$out_root"' EXIT
